@@ -10,6 +10,7 @@ use serde_json::json;
 
 pub const K1: &str = "c04.comment_marker_in_file_name";
 pub const K3: &str = "c04.natural_length_above_limit";
+pub const K10: &str = "c04.sample_point_time_beyond_limit";
 
 const CANON: [(&str, Section); 8] = [
     ("[General]", Section::General),
@@ -104,6 +105,10 @@ pub struct Outcome {
 }
 
 pub fn check_map(m1: &Beatmap, open_k1: bool, open_k3: bool) -> Result<Outcome, String> {
+    check_map_k(m1, open_k1, open_k3, crate::engine::KnownFindings::load().is_open("C04", K10))
+}
+
+pub fn check_map_k(m1: &Beatmap, open_k1: bool, open_k3: bool, open_k10: bool) -> Result<Outcome, String> {
     let e = m1.clone().encode_to_string().map_err(|e| format!("encode error {e}"))?;
     let lines: Vec<&str> = e.split('\n').collect();
     let mut known = vec![];
@@ -175,6 +180,19 @@ pub fn check_map(m1: &Beatmap, open_k1: bool, open_k3: bool) -> Result<Outcome, 
                         continue;
                     }
                     return Err(format!("[natural length above the limit] the decoder rejects the encoded hit-object line {:?}: {err}", line));
+                }
+                // K10: a sample point collected from an object's end / node time beyond +-(2^31-1)
+                if *sec == Section::TimingPoints {
+                    let t = line.split(',').next().and_then(|s| s.trim().parse::<f64>().ok());
+                    if t.map_or(false, |t| t.abs() > 2147483647.0) {
+                        if open_k10 {
+                            if !known.contains(&K10) {
+                                known.push(K10);
+                            }
+                            continue;
+                        }
+                        return Err(format!("[time beyond the parse limit] the decoder rejects the encoded timing line {:?}: {err}", line));
+                    }
                 }
                 return Err(format!("the decoder rejects the encoded line {:?} of {:?}: {err}", line, sec));
             }
@@ -318,13 +336,13 @@ fn record(res: Result<Outcome, String>, bytes: &[u8], m1: &Beatmap, st: &mut Sta
 
 pub fn run(ctx: &mut Ctx) {
     ctx.rule = "cases are maps obtained by decoding the inputs of the C01 generator (hostile, mutated, spliced, noise; so including non-chronological input) and accepted documents, plus all bundled maps; every line of their encoding is examined. Oracle: (1) line 0 is the version line of M1.format_version; (2) the lines Section::try_from_line recognises are exactly the eight canonical headers, once each, in order; (3) every non-blank line inside a section is not skipped by should_skip_line and the public parse_<section> returns Ok when the lines are fed in order into one state; (4) nothing is dropped or misread: each key/value line carries a recognised key of its section and, parsed alone, yields M1's value (SampleSet exempt: derived); breaks / combo colours / named colours / bookmarks / hit objects agree in count and value, hit objects in kind and start time index by index. Non-trivial = the encoding has >= 1 hit-object line or >= 1 timing line; distinct by hash of the input.".into();
-    let (k1, k3) = (ctx.open(K1), ctx.open(K3));
+    let (k1, k3, k10) = (ctx.open(K1), ctx.open(K3), ctx.open(K10));
     crate::props::replay_regress_generic(ctx, replay);
     let files = crate::gen::corpus::bundled();
     ctx.enumerate("every bundled map", files.len() as u64, |i, st| {
         let b = &files[i as usize];
         let m1: Beatmap = rosu_map::from_bytes(&b.bytes).map_err(|e| Fail::new(format!("decode error {e}"), "osu", b.bytes.clone()))?;
-        let r = check_map(&m1, k1, k3);
+        let r = check_map_k(&m1, k1, k3, k10);
         if r.is_ok() {
             st.nontrivial_distinct();
             st.eval();
@@ -343,7 +361,7 @@ pub fn run(ctx: &mut Ctx) {
             st.exclude("heavy");
             return Ok(());
         }
-        let r = check_map(&m1, k1, k3);
+        let r = check_map_k(&m1, k1, k3, k10);
         record(r, &bytes, &m1, st)
     });
 }
@@ -356,7 +374,7 @@ pub fn replay(ctx: &mut Ctx, ext: &str, bytes: &[u8]) -> Result<Option<String>, 
         bytes.to_vec()
     };
     let m1: Beatmap = rosu_map::from_bytes(&b).map_err(|e| Fail::new(format!("decode error {e}"), "osu", b.clone()))?;
-    match check_map(&m1, ctx.open(K1), ctx.open(K3)) {
+    match check_map_k(&m1, ctx.open(K1), ctx.open(K3), ctx.open(K10)) {
         Ok(o) => Ok(o.known.first().map(|k| k.to_string())),
         Err(m) => Err(Fail::new(m, "osu", b)),
     }
